@@ -137,6 +137,24 @@ def obligations(ctx):
         rec_ok = all(fresh or txt in {walk.args.args[0].arg} for _, fresh, txt in a.returns) and bool(a.returns)
         out.append(_v("F:_jsx._walk_attrs_and_children:returns-owned", all(fr for _, fr, _ in a.returns) and bool(a.returns), M + "._walk_attrs_and_children",
                       "the walker returns the (new) object it filled in: " + ", ".join(f"L{l}: `{t}`" for l, _, t in a.returns)))
+        # the walk reaches every descendant: what is stored back into a child list or a prop map is the walk of the old entry
+        stores = [n for n in ast.walk(walk) if isinstance(n, ast.Assign) and len(n.targets) == 1 and isinstance(n.targets[0], ast.Subscript)
+                  and isinstance(n.targets[0].value, ast.Attribute) and n.targets[0].value.attr in ("children", "attrs")]
+        def recursive(e):
+            return any(isinstance(c, ast.Call) and isinstance(c.func, ast.Name) and c.func.id == walk.name and len(c.args) == 2
+                       and isinstance(c.args[1], ast.Name) and c.args[1].id == cb for c in ast.walk(e))
+        shallow = [n for n in stores if not recursive(n.value)]
+        kinds = {n.targets[0].value.attr for n in stores}
+        note = "every entry stored back into .children / .attrs is the walk of the old entry with the same callback (so nested tags, components and prop values are all visited)"
+        if shallow:
+            out.append(_v("R:_jsx._walk_attrs_and_children:visits-descendants", False, f"{M}._walk_attrs_and_children line {shallow[0].lineno}",
+                          note + f": `{ast.unparse(shallow[0])}` does not recurse", "R"))
+        elif kinds == {"children", "attrs"}:
+            out.append(_v("R:_jsx._walk_attrs_and_children:visits-descendants", True, M + "._walk_attrs_and_children", note + f": {len(stores)} stores", "R"))
+        else:
+            v_ = _v("R:_jsx._walk_attrs_and_children:visits-descendants", True, M + "._walk_attrs_and_children", "the walker's stores are not in the recognised form (undecided; the oracle's fixed battery covers nested dependencies)", "R")
+            v_.status = "unknown"
+            out.append(v_)
     except Exception as ex:
         out.append(_v("F:_jsx._walk_attrs_and_children:owned-stores", False, M, f"cannot analyse: {ex}"))
     # 2. tagify and its callback
